@@ -53,6 +53,27 @@ pub fn eval_pixels(si: usize, msg: &[u8], flips: &[usize], st: &mut Stats) -> Re
     }
 }
 
+/// One flipped module in every codeword in turn, and t damaged codewords at every burst offset
+/// for the small sizes.
+fn pixel_jobs_dense(si: usize) -> Vec<(Vec<u8>, Vec<usize>)> {
+    let sy = &SYMBOLS[si];
+    let msg: Vec<u8> = (0..sy.data / 2 + 1).map(|i| b"Az09 *"[i % 6]).collect();
+    let px = pixel_of_bits(sy);
+    let mut out = Vec::new();
+    for cw in 0..sy.total() {
+        out.push((msg.clone(), vec![px[cw * 8 + cw % 8]]));
+    }
+    if sy.total() <= 72 {
+        let t = sy.t();
+        let idx = rs::blk_idx(sy, 0);
+        for o in 0..=idx.len() - t {
+            let flips: Vec<usize> = (0..t).map(|i| px[idx[o + i] * 8 + (o + i) % 8]).collect();
+            out.push((msg.clone(), flips));
+        }
+    }
+    out
+}
+
 fn pixel_jobs(si: usize) -> Vec<(Vec<u8>, Vec<usize>)> {
     // a message that fills about half of the symbol
     let sy = &SYMBOLS[si];
@@ -117,7 +138,7 @@ pub fn run(ctx: &Ctx) -> i32 {
     ctx.par(48, |c, w| {
         let si = c as usize;
         w.label(|| format!("flipped modules {}", SYMBOLS[si].name()));
-        for (msg, flips) in pixel_jobs(si) {
+        for (msg, flips) in pixel_jobs(si).into_iter().chain(pixel_jobs_dense(si)) {
             w.check(
                 (si * 1000) as u64,
                 || json!({"size": bridge::size_name(si), "message": hex(&msg), "flipped_pixels": flips}),
@@ -131,7 +152,7 @@ pub fn run(ctx: &Ctx) -> i32 {
         "rule": format!("fault patterns of weight <= floor(k/2) per interleaved block on reference codewords (zero data, LCG data) of all 48 sizes: RS-1 every position x error values ({}); \
 RS-2 bursts at every in-block offset (data region, EC region, across the boundary), spread patterns and all blocks damaged at once for weights 2, t/2, t-1, t; for the six sizes with <= 24 codewords all \
 position subsets of size 2..min(t,3) x 8 values and of size t x 2 values (quick: not for the two largest of them beyond size 4); RS-S syndrome-prefix family: for weights w = 2..min(t,5|6) and four position sets per block (start of data, across the data/EC boundary, spread, end of EC) the error values that realise every syndrome prefix (S_1..S_w) over {{0}} and powers of 2 (8^w for w <= 4) - this drives the decoder through its singular cases (leading zero syndromes, geometric syndrome sequences) inside the guaranteed region; plus damage through flipped modules of the rendered symbol \
-(t codewords of each block at three offsets, 1-8 modules each, module positions from R3/R4). Patterns are distinct by construction, all non-trivial. Oracle: Ok and exact restoration.",
+(t codewords of each block at three offsets, 1-8 modules each; one module of every codeword in turn; for sizes up to 72 codewords t codewords at every burst offset; module positions from R3/R4). Patterns are distinct by construction, all non-trivial. Oracle: Ok and exact restoration.",
             if ctx.tier == Tier::Thorough { "all 255" } else { "1, 0x80, 0xFF everywhere; all 255 at every position of the sizes with <= 300 codewords and at the first/last data and EC codeword of every block of the larger ones" }),
         "exhaustive": true,
         "max_errors_per_block": ctx.maximum("errors_per_block"),
